@@ -607,6 +607,10 @@ class AsyncServer(base_server.BaseServer):
 
     async def _handle_event(self, eio_sid, namespace, id, data):
         """Handle an incoming client event."""
+        if not isinstance(data, list) or not data:
+            # (a string would be taken apart into an event name and arguments)
+            raise ValueError('The payload of an event is a list that starts '
+                             'with its name.')
         namespace = namespace or '/'
         sid = self.manager.sid_from_eio_sid(eio_sid, namespace)
         self.logger.info('received event "%s" from %s [%s]', data[0], sid,
